@@ -40,6 +40,25 @@ func (ex *Exec) registerStubs() {
 		st.files = nf
 		return ret1(st, nil)
 	}
+	// verifPadFile(name, length): the ghost file's length becomes `length`
+	// (bytes beyond the given content are zeros nobody reads)
+	pad := func(ex *Exec, st *State, _ *ssa.CallCommon, a []Value) []Outcome {
+		name := ex.argStr(st, a[0])
+		f, ok := ex.fileOf(st, name)
+		if !ok || f.mode != 0 {
+			return ret1(st, nil)
+		}
+		nf := map[string]ghostFile{}
+		for k, v := range st.files {
+			nf[k] = v
+		}
+		f.length = a[1].(*Term)
+		nf[name] = f
+		st.files = nf
+		return ret1(st, nil)
+	}
+	I["verif:verifpadfile"] = pad
+	I["verif:vhpadfile"] = pad
 	fileT := func() types.Type {
 		return ex.prog.ImportedPackage("os").Type("File").Type()
 	}
